@@ -438,6 +438,16 @@ def call_method(ip, st, recv, name, args, kwargs):
             if len(args) > 1:
                 return args[1]
             _raise(KeyError, repr(k))
+    if getattr(recv, "is_text", False) and name == "encode" and recv.kind == "str":
+        from .text import utf8_encoded
+
+        codec = (args[0] if args else kwargs.get("encoding", "utf-8"))
+        if not isinstance(codec, str) or codec.lower().replace("_", "-") not in ("utf-8", "utf8"):
+            raise Unsupported(f"str.encode({codec!r}) of a modelled text")
+        enc_t, bad = utf8_encoded(st, recv)
+        if st.branch(bad):
+            _raise(UnicodeEncodeError, "surrogates not allowed")
+        return enc_t
     if getattr(recv, "is_text", False) and name == "decode":
         # assumed contract on bytes.decode('utf-8'): raises UnicodeDecodeError on ill-formed input; otherwise
         # yields the characters successive decode steps yield (so the total width is the column difference)
@@ -876,6 +886,13 @@ def b_ord(ip, st, c):
         from .text import char_ord
 
         return char_ord(c)
+    if getattr(c, "is_text", False):
+        # ord(s): TypeError unless len(s) == 1; then the code point of the character / the value of the byte
+        from .text import char_ord
+
+        st.partial(V._cmp("==", c.length, 1) if V.is_sym(c.length) else c.length == 1, TypeError, "ord() expected a character")
+        e = c.get(0)
+        return char_ord(e) if c.kind == "str" else e
     if isinstance(c, Sym):
         return ip.task.sym_ord(ip, st, c)
     try:
